@@ -23,6 +23,28 @@ NOTES = {
  "C19": ("inconclusive at first (AST locator no longer matched), then missed", "locator-missing fallback; scalings 1e-13 .. 1e9 of the Hermitian classes, 1e-14 .. 1e12 of the boundedness classes"),
  "C20": ("missed at first", "structured non-Hermitian classes (non-real diagonal only, single entry, corner entry, real-part asymmetry, one non-conjugated pair, transpose-symmetric) for every Hermitian-only entry point, also in C08"),
 }
+NOTES.update({
+ "C01-2": ("caught (one case only)", "entry class sum_zero (x + y + z = 0 exactly) added"),
+ "C02-2": ("missed at first", "Realp with Python ints / numpy scalars and with one component plane in int8/int32/int64/float32"),
+ "C03-2": ("caught", ""),
+ "C04-2": ("caught by thorough only (marginally)", "matrix classes clustered_eigs / near_identity and right-hand side near_eigvec: Krylov spaces that are nearly, not exactly, invariant"),
+ "C05-2": ("caught", ""),
+ "C06-2": ("missed at first", "full-rank classes with columns / rows graded down to 1e-30 relative"),
+ "C07-2": ("caught", ""),
+ "C08-2": ("caught", ""),
+ "C09-2": ("caught (two cases only)", ""),
+ "C10-2": ("caught", ""),
+ "C11-2": ("caught", ""),
+ "C12-2": ("caught", ""),
+ "C13-2": ("caught by thorough only", "hybrid solver with block size 6 = width of its internal test sketch on matrices with 7..9 columns, constructor seed"),
+ "C14-2": ("missed by C14 (caught by C08's input_unchanged)", "battery re-run on structured variants of every role: decoupled leading entry, diagonal, zero, triangular, integer (writable and read-only)"),
+ "C15-2": ("missed at first", "legacy Krylov norm on scipy csc / lil / COO-with-duplicates / explicit-zero components"),
+ "C16-2": ("missed at first", "triangular systems whose diagonal entries are pure, single-axis or negative real"),
+ "C17-2": ("caught", ""),
+ "C18-2": ("missed at first", "metrics on uint8 / int16 / uint16 / int32 / float32 images incl. differences that are multiples of 16"),
+ "C19-2": ("missed at first", "Hermitian [0] (+) H with isolated first coordinate; lower nilpotent; zero first row / last column"),
+ "C20-2": ("caught", ""),
+})
 for d in sorted(glob.glob(os.path.join(HERE, "seeded", "C*"))):
     pid = os.path.basename(d)[:3]
     agent = {}
@@ -43,7 +65,7 @@ for d in sorted(glob.glob(os.path.join(HERE, "seeded", "C*"))):
                 m = re.search(r"clause=(\S+) site=(\S+)", txt)
                 first_clause = f"{m.group(1)} @ {m.group(2)}" if m else None
                 break
-    note = NOTES.get(pid, ("", ""))
+    note = NOTES.get(os.path.basename(d), ("", ""))
     meta = {
         "property": pid,
         "origin": "independent sub-agent given only the property text and a scratch worktree of /repo",
